@@ -234,6 +234,63 @@ theorem resolveTransition_errE (root sc : Scope) (conf : Forest) (dest : SPath) 
           intro r
           exact PR.ErrE.ok
 
+theorem nfinalLoop_errE (E : List SPath) : ∀ (f : Forest) (sc : Scope) (cbs : List (List Nat)) (all : Bool),
+    (nfinalLoop E sc f cbs all).ErrE := by
+  intro f
+  induction f with
+  | nil => intro sc cbs all; unfold nfinalLoop; exact PR.ErrE.ok
+  | cons k sub rest ih1 ih2 =>
+    intro sc cbs all
+    unfold nfinalLoop
+    split
+    · exact PR.ErrE.err rfl
+    · exact PR.ErrE.bind (ih1 _ _ _) (fun r => ih2 _ _ _)
+
+theorem nfinalCheckRoot_errE (cfg : NCfg) (tree : Forest) (E : List SPath) : (nfinalCheckRoot cfg tree E).ErrE := by
+  unfold nfinalCheckRoot
+  refine PR.ErrE.bind (nfinalLoop_errE E _ _ _ _) ?_
+  intro r
+  split
+  · exact PR.ErrE.ok
+  · split
+    · split
+      · exact PR.ErrE.ok
+      · split
+        · exact PR.ErrE.ok
+        · exact PR.ErrE.err rfl
+    · exact PR.ErrE.ok
+
+/-- the final-check stage is: nothing, or an engine failure in place, or one run of `on_final` callbacks -/
+theorem nfinalStage_cases (sub : NSub) (sc : Script) (cfg : NCfg) (scope : Scope) (x : Ctx) (dest : Option SPath)
+    (conf0 : Forest) (s : NSt) :
+    nfinalStage sub sc cfg scope x dest conf0 s = .ok () s ∨
+    (∃ cbs, nfinalStage sub sc cfg scope x dest conf0 s = ncallbacks sub sc cfg .onFinal x cbs s) ∨
+    (∃ e, e.isEngine = true ∧ nfinalStage sub sc cfg scope x dest conf0 s = .err e s) ∨
+    nfinalStage sub sc cfg scope x dest conf0 s = .oof := by
+  unfold nfinalStage
+  cases dest with
+  | none => exact Or.inl rfl
+  | some d =>
+    simp only []
+    cases hr : resolveTransition cfg.root scope conf0 d with
+    | ok r =>
+      simp only []
+      cases hf : nfinalCheckRoot cfg r.tree (r.enters.map (·.path)) with
+      | ok cbs => exact Or.inr (Or.inl ⟨_, rfl⟩)
+      | err e => exact Or.inr (Or.inr (Or.inl ⟨e, nfinalCheckRoot_errE _ _ _ e hf, rfl⟩))
+      | oof => exact Or.inr (Or.inr (Or.inr rfl))
+    | err e => exact Or.inl rfl
+    | oof => exact Or.inl rfl
+
+theorem nfinalStage_view (sub : NSub) (sc : Script) (cfg : NCfg) (hC : NoCmds sc) (scope : Scope) (x : Ctx)
+    (dest : Option SPath) (conf0 : Forest) (s s' : NSt)
+    (h : (nfinalStage sub sc cfg scope x dest conf0 s).state? = some s') : s'.view = s.view := by
+  rcases nfinalStage_cases sub sc cfg scope x dest conf0 s with h1 | ⟨cbs, h1⟩ | ⟨e, _, h1⟩ | h1 <;> rw [h1] at h
+  · simp only [Res.state?, Option.some.injEq] at h; subst h; rfl
+  · exact ncallbacks_view sub sc cfg hC _ x cbs s s' h
+  · simp only [Res.state?, Option.some.injEq] at h; subst h; rfl
+  · simp [Res.state?] at h
+
 theorem cerLoop_errE (cfg : NCfg) (ev : Nat) : ∀ (l : List SPath), (cerLoop cfg ev l).ErrE
   | [] => PR.ErrE.ok
   | p :: r => by
@@ -317,6 +374,14 @@ theorem nchangeState_errE (hR : NoRaise sc) (hC : NoCmds sc) (scope : Scope) (x 
   · exact ErrE.oof
   · exact ErrE.bind (exitAll_errE hR hC x _ _) (fun _ s1 => enterAll_errE hR hC x _ _)
 
+theorem nfinalStage_errE (hR : NoRaise sc) (hC : NoCmds sc) (scope : Scope) (x : Ctx) (dest : Option SPath)
+    (conf0 : Forest) (s : NSt) : ErrE (nfinalStage sub sc cfg scope x dest conf0 s) := by
+  rcases nfinalStage_cases sub sc cfg scope x dest conf0 s with h1 | ⟨cbs, h1⟩ | ⟨e, he, h1⟩ | h1 <;> rw [h1]
+  · exact ErrE.ok
+  · exact ncallbacks_errE hR hC _ x cbs s
+  · exact ErrE.err he
+  · exact ErrE.oof
+
 theorem nexecute_errE (hR : NoRaise sc) (hC : NoCmds sc) (scope : Scope) (x : Ctx) (tr : TRef) (t : NTrans) (s : NSt) :
     ErrE (nexecute sub sc cfg scope x tr t s) := by
   unfold nexecute
@@ -335,6 +400,8 @@ theorem nexecute_errE (hR : NoRaise sc) (hC : NoCmds sc) (scope : Scope) (x : Ct
       · exact nchangeState_errE hR hC scope x _ s4
       · exact ErrE.ok
     · intro _ s5
+      refine ErrE.bind (nfinalStage_errE hR hC scope x _ _ _) ?_
+      intro _ s5
       refine ErrE.bind (ncallbacks_errE hR hC _ x _ _) ?_
       intro _ s6
       refine ErrE.bind (ncallbacks_errE hR hC _ x _ _) ?_
@@ -570,6 +637,12 @@ theorem execStep_presG (hcl : ClosedG cfg sub sc R Q) (scope : Scope) (x : Ctx) 
     exact this
 
 
+theorem nfinalStage_presG (hC : NoCmds sc) (hcl : ClosedG cfg sub sc R Q) (scope : Scope) (x : Ctx) (dest : Option SPath)
+    (conf0 : Forest) (s : NSt) : PresV R (nfinalStage sub sc cfg scope x dest conf0 s) s.view := by
+  intro s' h
+  rw [nfinalStage_view sub sc cfg hC scope x dest conf0 s s' h]
+  exact hcl.refl _
+
 theorem nexecute_presG (hC : NoCmds sc) (hcl : ClosedG cfg sub sc R Q) (scope : Scope) (x : Ctx) (tr : TRef) (t : NTrans)
     (s : NSt) (hw : cfg.root.walkTo scope.pre = some scope) :
     PresV R (nexecute sub sc cfg scope x tr t s) s.view := by
@@ -599,6 +672,8 @@ theorem nexecute_presG (hC : NoCmds sc) (hcl : ClosedG cfg sub sc R Q) (scope : 
     have hstep := execStep_presG hcl scope x tr t.dest s4 s3.glog hw hg
     rw [hconf] at hstep
     refine PresV.bind hstep ?_
+    intro _ s5 _ f5
+    refine PresV.weakenG hcl f5 (PresV.bind (nfinalStage_presG hC hcl scope x _ _ s5) ?_)
     intro _ s5 _ f5
     refine PresV.weakenG hcl f5 (PresV.bind (ncallbacks_presG hC hcl _ x _ s5) ?_)
     intro _ s6 _ f6
